@@ -19,6 +19,7 @@ type RawManager struct {
 	mu        sync.Mutex
 	nodes     []*RawNode
 	lookup    map[uint32]*RawNode
+	closed    bool // set by Close; protected by mu
 	closeOnce sync.Once
 	logger    *log.Logger
 	opts      managerOptions
@@ -69,6 +70,11 @@ func (m *RawManager) Close() {
 		if m.logger != nil {
 			m.logger.Printf("closing")
 		}
+		// from here on AddNode does not add nodes to the pool: a node added
+		// after the snapshot below is taken would never be closed.
+		m.mu.Lock()
+		m.closed = true
+		m.mu.Unlock()
 		m.closeNodeConns()
 	})
 }
@@ -135,12 +141,19 @@ func (m *RawManager) AddNode(node *RawNode) error {
 	// check again, in the same critical section as the insertion: another
 	// goroutine may have added a node with this ID since the check above.
 	m.mu.Lock()
+	closed := m.closed
 	_, found := m.lookup[node.id]
-	if !found {
+	if !found && !closed {
 		m.lookup[node.id] = node
 		m.nodes = append(m.nodes, node)
 	}
 	m.mu.Unlock()
+	if closed {
+		// Close has taken (or is about to take) its snapshot of the pool:
+		// stop the goroutines and connection started by connect above
+		_ = node.close()
+		return fmt.Errorf("config: manager closed")
+	}
 	if found {
 		// stop the goroutines and connection started by connect above
 		_ = node.close()
